@@ -346,6 +346,20 @@ pub mod fs {
     pub fn create_dir_all<P: AsRef<Path>>(_p: P) -> io::Result<()> {
         Ok(())
     }
+    /// std::fs::metadata: length and kind of the file at the path (directories are not modelled: the path of a
+    /// directory that "exists" because files live below it is reported as a directory of length 0)
+    pub fn metadata<P: AsRef<Path>>(p: P) -> io::Result<Metadata> {
+        match read(p.as_ref()) {
+            Ok(b) => Ok(Metadata::file(b.len() as u64)),
+            Err(e) => {
+                if list().iter().any(|q| q.starts_with(p.as_ref()) && q != p.as_ref()) {
+                    Ok(Metadata::dir())
+                } else {
+                    Err(e)
+                }
+            }
+        }
+    }
     pub fn exists<P: AsRef<Path>>(p: P) -> bool {
         FS.with(|f| f.borrow().contains_key(p.as_ref()))
     }
@@ -441,13 +455,23 @@ pub mod fs {
         writable: bool,
         append: bool,
     }
-    pub struct Metadata(u64);
+    #[derive(Clone, Debug)]
+    pub struct Metadata(u64, bool);
     impl Metadata {
+        pub fn file(len: u64) -> Self {
+            Metadata(len, true)
+        }
+        pub fn dir() -> Self {
+            Metadata(0, false)
+        }
         pub fn len(&self) -> u64 {
             self.0
         }
         pub fn is_file(&self) -> bool {
-            true
+            self.1
+        }
+        pub fn is_dir(&self) -> bool {
+            !self.1
         }
     }
     impl File {
@@ -477,7 +501,7 @@ pub mod fs {
             Ok(())
         }
         pub fn metadata(&self) -> io::Result<Metadata> {
-            Ok(Metadata(self.inode.borrow().len() as u64))
+            Ok(Metadata::file(self.inode.borrow().len() as u64))
         }
     }
     impl io::Read for File {
